@@ -43,7 +43,7 @@ def custom_mods(name, fmt, obj, pth, part, snap, rng):
     if name == "ci_parent_arch":
         if snap.get("parent") is None:
             return []
-        mine = V.elems(snap.get("arches")) if hasattr(V, "elems") else R.elems(snap.get("arches"))
+        mine = R.elems(snap.get("arches"))
         theirs = R.elems(snap["parent"].get("arches")) or []
         foreign = [a for a in V.ARCHES + ["sparc"] if a not in theirs]
         return [{"path": pth, "set": "arches", "value": {"$set": sorted(set(mine or []) | {foreign[0]})}},
@@ -133,11 +133,13 @@ class C06(Prop):
             fmt = V.FORMATS[i % len(V.FORMATS)]
             k = i // len(V.FORMATS)
             i += 1
-            spec = V.gen(rng, fmt, k)
             if k % 4 == 0:
+                # the converse stream: `k // 4` walks through every enumeration value
+                spec = V.gen(rng, fmt, k // 4)
                 n += 1
                 yield {"op": "c06", "args": {"fmt": fmt, "spec": spec, "mods": [], "tag": "valid"}}
                 continue
+            spec = V.gen(rng, fmt, k)
             mod, tag = propose(fmt, spec, rng, T)
             if mod is None:
                 continue
@@ -208,6 +210,10 @@ class C06(Prop):
 
     def compare(self, case, real_out, model_out):
         diffs = {}
+        # `Other` = the model does not know (e.g. `"%s" % <foreign object>`): outside its domain, not compared
+        if model_out["dumps"] == "Other" or any(mv == "Other" for mv, _ in model_out["parts"]):
+            self.outside = getattr(self, "outside", 0) + 1
+            return None
         if real_out["dumps"] != model_out["dumps"]:
             diffs["dumps"] = [real_out["dumps"], model_out["dumps"]]
         rp = real_out["parts"]
